@@ -286,8 +286,11 @@ impl BobState {
     }
 
     /// Consume self and get the [`SyncOutcome`] for this connection.
+    ///
+    /// The progress is handed to the store actor while a message is processed and is lost if
+    /// that step fails; the outcome is empty in that case.
     pub fn into_outcome(self) -> SyncOutcome {
-        self.progress.unwrap()
+        self.progress.unwrap_or_default()
     }
 }
 
